@@ -121,6 +121,7 @@ class Sched:
         self.turn: str | None = None
         self.alive: set[str] = set()
         self.finished: list[str] = []
+        self.finish_step: dict[str, int] = {}   # global step counter when the thread's body returned
         self.blocked: set[str] = set()
         self.count = {n: 0 for n in order}
         self.steps = 0
@@ -223,6 +224,7 @@ class Sched:
             with self.cv:
                 self.alive.discard(name)
                 self.finished.append(name)
+                self.finish_step[name] = self.steps
                 if self.lock is not None and self.lock.owner == name:
                     # thread died holding the lock (unwound by abort): free it so that others can unwind too
                     self.lock.owner = None
